@@ -344,7 +344,7 @@ func registerVerifsym(ip *Interp) {
 		ip.nAssertQueries++
 		if !c.IsConst() && ip.evalBool(c) {
 			if ok, _ := ip.solveZ3(nc); !ok {
-				return nil // holds for every value on this path
+				return nil // holds for every value on this path (cross-checked inside solveWith when enabled)
 			}
 		}
 		if os.Getenv("GOSYM_DEBUG_OBS") != "" {
